@@ -81,7 +81,7 @@ class _OpxRange(ExcelWrapper.RangeData):
 
             # if this range corresponds to the top left of a CSE Array formula
             if (args[0] == args[1] == '1') and all(
-                    c.value and c.value.startswith(front)
+                    isinstance(c.value, str) and c.value.startswith(front)
                     for c in flatten(cells)):
                 # apply formula to the range
                 formula = '={%s}' % front[len(ARRAY_FORMULA_NAME) + 1:]
